@@ -83,7 +83,8 @@ def run_c12(run_, rng, tier, exe):
     for _ in range(200 if q else 3000):
         sec = scen.section(rng, "t", kind="change", fmt=rng.choice(["unified", "context"]), nonl=False)
         names = dict(old="o/" + rng.choice(["one", "d/one"]), new="n/" + rng.choice(["two", "d/two"]), index="i/" + rng.choice(["three", "d/three"]))
-        text = sec["text"].replace(b"a/t", ("x/" + names["old"]).encode()).replace(b"b/t", ("x/" + names["new"]).encode())
+        # only the two header names (their first occurrences), never the same bytes inside hunk lines
+        text = sec["text"].replace(b"a/t", ("x/" + names["old"]).encode(), 1).replace(b"b/t", ("x/" + names["new"]).encode(), 1)
         text = ("Index: x/%s\n" % names["index"]).encode() + text
         tree = {}
         present = [k for k in ("old", "new", "index") if rng.random() < 0.6]
